@@ -397,7 +397,7 @@ func c49Locks(c *report.Check) {
 	type cfg struct{ n, nk, depth int }
 	cfgs := []cfg{{2, 1, 7}, {3, 1, 5}, {2, 2, 5}}
 	if c.Thorough() {
-		cfgs = []cfg{{2, 1, 9}, {3, 1, 7}, {2, 2, 6}}
+		cfgs = []cfg{{2, 1, 8}, {3, 1, 6}, {2, 2, 6}}
 	}
 	tot := c49NewLockAcc()
 	var desc []string
